@@ -447,7 +447,18 @@ def _bool_eval(prog, body, assign, depth=0):
                     for key in (f.get("resolved"), f.get("path")):
                         if key and key in prog.bodies:
                             cal = prog.bodies[key]
-                if cal is not None and cal is not body and cal.local_ty(0) == "bool" and len(t["args"]) >= 1:
+                if cal is not None and cal is not body and cal.local_ty(0) == "bool" and "{closure" in cal.path and len(t["args"]) == 2:
+                    # a Boolean closure applied to one operand: `let is_vector = |m: &Self| ..; is_vector(self)`; the closure's
+                    # parameter is its argument 2
+                    tup = res.operand(t["args"][1])
+                    x = tup[2][0] if tup[0] == "agg" and tup[2] else None
+                    if x is not None and x[0] == "arg" and x[1] in (1, 2) and len(tup[2]) == 1:
+                        src = (0, 1) if x[1] == 1 else (2, 3)
+                        sub = [None, None, assign[src[0]], assign[src[1]]]
+                        _, rv = _bool_eval(prog, cal, sub, depth + 1)
+                        if len(rv) == 1 and None not in rv:
+                            env[t["d"]["l"]] = next(iter(rv))
+                elif cal is not None and cal is not body and cal.local_ty(0) == "bool" and len(t["args"]) >= 1:
                     sub = [None, None, None, None]
                     for j, a in enumerate(t["args"][:2]):
                         at_ = res.operand(a)
@@ -457,6 +468,17 @@ def _bool_eval(prog, body, assign, depth=0):
                     _, rv = _bool_eval(prog, cal, sub, depth + 1)
                     if len(rv) == 1 and None not in rv:
                         env[t["d"]["l"]] = next(iter(rv))
+                elif cal is not None and cal is not body and cal.local_ty(0) in ("()", "!") and len(t["args"]) >= 2:
+                    # a private checking helper that receives the two operands and panics: `self.check_operands(other);`
+                    ats = [res.operand(a) for a in t["args"][:2]]
+                    if all(a[0] == "arg" and a[1] in (1, 2) for a in ats) and {a[1] for a in ats} == {1, 2}:
+                        sub = [None, None, None, None]
+                        for j, a in enumerate(ats):
+                            src = (0, 1) if a[1] == 1 else (2, 3)
+                            sub[2 * j], sub[2 * j + 1] = assign[src[0]], assign[src[1]]
+                        hreach, _ = _bool_eval(prog, cal, sub, depth + 1)
+                        if not any(r in hreach for r in cal.returns):
+                            succ = []                              # the helper refuses this combination: the call diverges
         for sx in succ:
             if body.blocks[sx]["cleanup"]:
                 continue
@@ -483,6 +505,21 @@ def dot_vector_gate(body, prog=None):
             c = guards._cond(res, res.rvalue(st["r"], 0, ()))
             if c and (c[2] == ("int", 1) or c[0] == ("int", 1)) and (dim_of(c[0]) or dim_of(c[2])):
                 n_tests += 1
+    # tests that live in a private helper called with the two operands
+    if prog is not None:
+        for bb, t in body.calls():
+            f = t.get("f")
+            cal = None
+            for key in ((f or {}).get("resolved"), (f or {}).get("path")):
+                if key and key in prog.bodies:
+                    cal = prog.bodies[key]
+            if cal is not None and cal is not body and (len(t["args"]) >= 2 or "{closure" in cal.path):
+                hres = Resolver(cal)
+                for i, j, st in cal.stmts():
+                    if st["k"] == "assign" and st["r"]["k"] == "bin" and not st["p"]["pr"]:
+                        c = guards._cond(hres, hres.rvalue(st["r"], 0, ()))
+                        if c and (c[2] == ("int", 1) or c[0] == ("int", 1)) and (dim_of(c[0]) or dim_of(c[2])):
+                            n_tests += 1
     bad = []
     for assign in itertools.product((False, True), repeat=4):
         reach, _ = _bool_eval(prog, body, list(assign))
